@@ -37,6 +37,7 @@ type c11Read struct {
 	Want     c11Val `json:"want"`
 	Desc     string `json:"desc"`
 	Reuse    bool   `json:"decode_into_used_struct,omitempty"`
+	Same     bool   `json:"decode_into_a_value_already_holding_this_message,omitempty"` // decoded from another copy of the input / built by the constructor
 	Span     bool   `json:"span_cache,omitempty"`
 	Stack    bool   `json:"also_from_a_stack_held_copy,omitempty"`
 }
@@ -316,6 +317,9 @@ func c11ReadOneSpan(c *mc.Ctx, k c11Read, in []byte) {
 			if k.Reuse { // the struct was used for another message before: a map in the new message replaces the old one
 				x.FastRead(c11PrevBase)
 			}
+			if k.Same { // ... or holds the very same message already ("unchanged: keep the old value" shortcuts alias nothing either)
+				x.FastRead(append([]byte{}, in...))
+			}
 			n, err = x.FastRead(in)
 			got.S = [3]string{x.LogID, x.Caller, x.Addr}
 			got.HasMap, got.Extra = x.Extra != nil, x.Extra
@@ -328,6 +332,9 @@ func c11ReadOneSpan(c *mc.Ctx, k c11Read, in []byte) {
 			if k.Reuse {
 				x.FastRead(c11PrevResp)
 			}
+			if k.Same {
+				x.FastRead(append([]byte{}, in...))
+			}
 			n, err = x.FastRead(in)
 			got.S[0], got.I = x.StatusMessage, x.StatusCode
 			got.HasMap, got.Extra = x.Extra != nil, x.Extra
@@ -337,6 +344,12 @@ func c11ReadOneSpan(c *mc.Ctx, k c11Read, in []byte) {
 			}
 		default:
 			x := thrift.NewApplicationException(0, "")
+			if k.Same {
+				x = thrift.NewApplicationException(k.Want.I, k.Want.S[0]) // built by the constructor with the content that arrives
+				if len(in)%2 == 1 {
+					x.FastRead(append([]byte{}, in...)) // or decoded before from another copy
+				}
+			}
 			n, err = x.FastRead(in)
 			got.S[0], got.I = x.Msg(), x.TypeID()
 		}
@@ -569,6 +582,12 @@ func c11Run(c *mc.Ctx) {
 				for ti, tr := range trailers {
 					in := append(append([]byte{}, enc...), tr...)
 					c11ReadOne(c, c11Read{Kind: kd.kind, StructN: len(enc), Want: want, Desc: desc, Stack: stack && ti == 0 && len(sel) == len(kd.fields)}, in)
+				}
+				if len(sel) == len(kd.fields) {
+					for _, tr := range trailers[:2] {
+						in := append(append([]byte{}, enc...), tr...)
+						c11ReadOne(c, c11Read{Kind: kd.kind, StructN: len(enc), Want: want, Desc: desc + ", decoded into a value that already holds this message", Same: true}, in)
+					}
 				}
 				if len(sel) == len(kd.fields) && kd.kind != "exception" && ins == nil {
 					in := append([]byte{}, enc...)
